@@ -93,6 +93,8 @@ type v1run struct {
 	stopRetLogged, graceRetLogged bool
 	stop2Req, stop2RetLogged      bool // a second Stop() overlapping the first
 	stop2Ret                      atomic.Bool
+	grace2Req, grace2RetLogged    bool // a second GracefulStop() overlapping the first
+	grace2Ret                     atomic.Bool
 	pendingCtl                    atomic.Int32
 	addRm                         atomic.Int32
 	ctlDone                       chan obs
@@ -331,6 +333,10 @@ func (r *v1run) observe() {
 		r.graceRetLogged = true
 		r.emit(obs{E: "GraceRet"})
 	}
+	if r.grace2Ret.Load() && !r.grace2RetLogged {
+		r.grace2RetLogged = true
+		r.emit(obs{E: "GraceRet"})
+	}
 	if r.stop2Ret.Load() && !r.stop2RetLogged {
 		r.stop2RetLogged = true
 		if !r.exited.Load() {
@@ -471,6 +477,11 @@ func (r *v1run) control(what string) bool {
 		r.emit(obs{E: "Cancel"})
 		r.cancel()
 	case "grace":
+		if r.graceReq && !r.stopReq && !r.cancelReq && !r.grace2Req && !r.graceRet.Load() {
+			r.grace2Req = true // a second call while the first is pending: its return is judged like the first one's
+			r.ctl("Grace2", func() { r.d.GracefulStop(); r.grace2Ret.Store(true) }, obs{})
+			return true
+		}
 		if r.terminating() {
 			return true
 		}
